@@ -319,6 +319,11 @@ Definition ordered_run (fuel : nat) (len : Z -> Q) (c : cell) (group : list Z) :
   let o := isort group in
   st <- ord_loop fuel len c ord_init o ;; Ok (o, st).
 
+(* several groups in one call: `for key in ord_segs.keys(): ... tot_len = 0 ...` — every selected group (each key once,
+   in the order of group_list) is processed on its own, starting from empty dictionaries and a zero running total *)
+Definition ordered_multi (fuel : nat) (len : Z -> Q) (c : cell) (groups : list (list Z)) : list (res (list Z * ordst)) :=
+  map (ordered_run fuel len c) groups.
+
 (* ---------------------------------------------------------------- top level *)
 Definition fuel_of (c : cell) : nat := S (length c).
 
@@ -455,7 +460,8 @@ Record obs : Type := mkobs {
   ob_pairs : list (Z * Z * res Q);              (* (source, dest, get_distance(dest, source)) *)
   ob_all : list (Z * res (list reached));       (* (src, get_all_distances_from_segment(src)) sorted by id *)
   ob_ats : list (Q * Z * res (list (Z * Q)));   (* (distance, src, get_segments_at_distance) sorted by id *)
-  ob_ord : option (list Z * res ordout) }.      (* resolved group ids, get_ordered_segments_in_groups(...) *)
+  ob_ord : option (list Z * res ordout);        (* resolved group ids, get_ordered_segments_in_groups(...) *)
+  ob_ordm : list (list Z * res ordout) }.       (* multi-group calls: per returned key, resolved ids and its results *)
 
 Definition with_graph {A} (tg : res ((Z -> Q) * graph)) (k : (Z -> Q) -> graph -> res A) : res A :=
   x <- tg ;; k (fst x) (snd x).
@@ -485,6 +491,13 @@ Definition model_obs (c : cell) (i : obs) : obs :=
                   r <- ordered_run fuel (lenf tbl) c grp ;;
                   let '(o, st) := r in
                   Ok (o, o_cum st, sort_by fst (o_pp st), sort_by fst (o_pd st)))
+     end)
+    (match tl with
+     | Ok tbl =>
+       map (fun x => (fst (fst x),
+                      r <- snd x ;; let '(o, st) := r in Ok (o, o_cum st, sort_by fst (o_pp st), sort_by fst (o_pd st))))
+           (combine (ob_ordm i) (ordered_multi fuel (lenf tbl) c (map fst (ob_ordm i))))
+     | Err e => map (fun x => (fst x, Err e)) (ob_ordm i)
      end).
 
 Definition flag (n : nat) (b : bool) : list nat := if b then [] else [n].
@@ -505,7 +518,8 @@ Definition obs_diff (m i : obs) : list nat :=
                | None, None => true
                | Some (_, a), Some (_, b) => res_eqb ordout_eqb a b
                | _, _ => false
-               end))%list.
+               end)
+   ++ flag 13 (list_eqb (fun a b => res_eqb ordout_eqb (snd a) (snd b)) (ob_ordm m) (ob_ordm i)))%list.
 
 (* component 12: the case lies outside the domain of the theorems (wf, root_has_prox) *)
 Definition domain_flag (c : cell) : list nat := flag 12 (wfb c && root_has_proxb c).
